@@ -555,6 +555,16 @@ static int do_que(int const *v, int n, FILE *fo)
     else if (rc != 0) { mismatch_hdr("que", qop[op], "return-code"); }
     else if ((int)q[1].cur_ != p1b || (int)q[2].cur_ != p2b) { ++n_drift; }
     n_nontrivial += (op >= 10) || p1 > 0;
+    /* an element-size change re-allocates the parked nodes: every one of them must really have room for an element of the
+       new size (the capacity of a parked node is not part of the abstract state: use them all and write them) */
+    if (op == 16 && rc == 0)
+    {
+        for (a_size k = q[1].cur_; k; --k)
+        {
+            a_byte *e = (a_byte *)a_que_push_back(&q[1]);
+            if (e) { put_elem(e, q[1].siz_, 7); }
+        }
+    }
     /* destruction: the recording destructor must be handed exactly what is left in the queue */
     nqdlog = 0; qcb_siz = q[1].siz_;
     a_que_dtor(&q[1], QCB_DTOR);
